@@ -918,6 +918,16 @@ pub fn run_c14(tier: Tier) -> i32 {
         let n2 = for_family(&Flipped(&sf), &|p| visit(&ctx, p));
         fams.push(json!({"family": sf.name(), "legal_members": n, "flipped_members": n2, "secs": t0.elapsed().as_secs_f64()}));
     }
+    // double pushes that give check and can be answered en passant, inside mating nets
+    {
+        let t0 = Instant::now();
+        let fam = PushChk;
+        let stride: u64 = if tier == Tier::Quick { 401 } else { 7 };
+        let sf = Strided(&fam, stride);
+        let n = for_family(&sf, &|p| visit(&ctx, p));
+        let n2 = for_family(&Flipped(&sf), &|p| visit(&ctx, p));
+        fams.push(json!({"family": sf.name(), "legal_members": n, "flipped_members": n2, "secs": t0.elapsed().as_secs_f64()}));
+    }
     // three / four queens: file+rank disambiguation, on a sub-lattice of KQQQk
     {
         let t0 = Instant::now();
@@ -975,7 +985,7 @@ pub fn run_c14(tier: Tier) -> i32 {
     cov.set("families", json!(fams));
     cov.set("non_vacuity_counters", ctx.counters.to_json());
     cov.samples = vec![json!({"fen": "4k3/8/8/8/8/5N2/8/1N2K3 w - - 0 1", "move": "b1d2", "standard_san": "Nbd2"}), json!({"fen": gp[0].to_fen(), "grammar_string": "Nbxd2+"})];
-    for k in ["disambiguation_by_file", "disambiguation_by_rank", "disambiguation_by_both", "mating_moves", "stalemating_moves", "castle_WK", "castle_BQ", "ep_captures", "capture_promotions"] {
+    for k in ["disambiguation_by_file", "disambiguation_by_rank", "disambiguation_by_both", "mating_moves", "stalemating_moves", "castle_WK", "castle_BQ", "ep_captures", "capture_promotions", "checks_answered_only_by_en_passant"] {
         if ctx.counters.get(k) == 0 {
             rep.machinery(format!("vacuous: counter {} is zero", k));
         }
